@@ -20,8 +20,11 @@ CONFIG = {
             "a schema-less scan (length +1/-1/0/2^31-1/2^32-1/random, wider header forms, str<->bin, scalar -> nil / negative / 2^64-1, "
             "object -> nil, duplicated / dropped / unknown struct key); valid NON-canonical re-encodings written by a schema-directed lax "
             "encoder (wider ints and headers, str for bin, nil for zero, shuffled and explicit-zero struct fields, struct-from-array, "
-            "shuffled map entries, long/short fixed byte arrays) and mutations of those; instances resized by reflection to exactly the "
-            "declared allocbound and to allocbound+1 at random bounded sites; random byte strings; inner transactions nested 1..400 "
+            "shuffled map entries, long/short fixed byte arrays) and mutations of those; EVERY allocbound site of EVERY schema (158 sites: slices, maps, byte strings, strings; "
+            "each struct level of the owning generated method in its struct-from-map AND its struct-from-array branch) with a well-formed "
+            "collection of exactly bound and of bound+1 minimal elements (nil / smallest value satisfying `required`; Payset 100000 incl.) "
+            "plus the header alone, accept expected at bound (counted in stats.json allocbound_sites); instances resized by reflection to "
+            "exactly the declared allocbound and to allocbound+1 at the bounded sites of random instances; random byte strings; inner transactions nested 1..400 "
             "(thorough ..5000) levels around the AllowableDepth limit and raw nested headers; the duplicate-key map merge.  spec_ok (on the "
             "implementation only): no panic, and on success every collection of the decoded object within its declared allocbound.  corr: "
             "same outcome class and same decoded tree as the model (modulo normal form).  Non-trivial = input inside the model (not Unm); "
@@ -33,7 +36,9 @@ CONFIG = {
         "outside the model (model answers Unm, only spec_ok is evaluated): a struct key that occurs twice (decoding into a non-fresh target), "
         "byte strings / strings / byte arrays given as arrays of integers (go-codec compatibility slow path), a map header where an array "
         "header is expected (flattened map)",
-        "memory safety / absence of Go runtime crashes is observed by the harness, not proved",
+        "memory safety / absence of Go runtime crashes is observed by the harness, not proved; root types with an `allocbound=-` slice/map "
+        "(trackerdb.TxTailRound) are decoded in a child process (ulimit -v 16 GiB + RLIMIT_AS, 120 s hard timeout), a dead child is the "
+        "observation (panic ...)",
         "collections with `allocbound=-` (and the elements of [][]byte without their own bound) are declared unbounded: bounded only by "
         "the message size",
     ],
